@@ -172,6 +172,24 @@ macro_rules! block_end {
         });
     };
 }
+/// Same kernel with deep indentation thresholds (min_indent up to 24, i.e. beyond
+/// one 16-byte SSE2 chunk of spaces).
+macro_rules! block_end_deep {
+    ($name:ident, $n:expr, $start:expr, $avx2:path) => {
+        kernel!($name, $avx2, {
+            let b: [u8; $n] = kani::any();
+            let mi: usize = kani::any();
+            kani::assume(mi >= 15 && mi <= 24);
+            let got = simd::find_block_scalar_end(&b, $start, mi);
+            let want = spec_block_end(&b, $start, mi);
+            assert!(got == Some(want));
+            kani::cover!(want > $start + 20 && want < $n && mi == 17);
+            kani::cover!(want == $n && mi == 20);
+        });
+    };
+}
+block_end_deep!(c16_block_end_deep_n48_s0_sse2, 48, 0, no);
+block_end_deep!(c16_block_end_deep_n48_s1_avx2, 48, 1, yes);
 block_end!(c16_block_end_n40_s0_avx2, 40, 0, yes);
 block_end!(c16_block_end_n40_s3_avx2, 40, 3, yes);
 block_end!(c16_block_end_n66_s1_avx2, 66, 1, yes);
